@@ -80,7 +80,9 @@ export async function run(ctx) {
     features: FEATURES,
     onCompileFailure: async ({ text, res, prog }) => {
       const first = res.diagnostics?.[0];
-      const sig = `rejected|${res.outcome}|${first ? first.variant : res.panic ? res.panic.file + ":" + res.panic.line : res.message || ""}`;
+      // (an AnyhowError carries its reason in the message only)
+      const why = first && first.variant === "AnyhowError" ? ":" + String(first.message).replace(/^Internal Error: /, "").replace(/[:'"`].*$/, "").trim().split(/\s+/).slice(0, 4).join("-") : "";
+      const sig = `rejected|${res.outcome}|${first ? first.variant + why : res.panic ? res.panic.file + ":" + res.panic.line : res.message || ""}`;
       ctx.violation({ signature: sig, clause: "supported-program-rejected", detail: (first ? first.message : JSON.stringify(res.panic || res.message || res.outcome)) + " in\n" + text, replay: { kind: "compile", text } });
     },
   })) {
@@ -135,6 +137,6 @@ export async function replay(ctx, c) {
   if (!r.parsers) return { violated: true, note: "does not compile", outcome: r.res.outcome };
   const v = fromEjson(c.value);
   const impl = implOf(r.parsers[c.parser], v);
-  const ref = new Ref(r.env).member(r.core, v);
-  return { violated: impl !== c.expect, impl, reference_now: ref, expected: c.expect, value: show(v) };
+  // (the reference verdict was recorded with the case: the replay needs the program text only)
+  return { violated: impl !== c.expect, impl, expected: c.expect, value: show(v) };
 }
